@@ -266,22 +266,46 @@ def _md_inl(inls, br: str, heading=False, in_link=False) -> str:
     return "".join(out)
 
 
+def _md_check_space(inls):
+    """Markdown drops white space at the start and the end of a block and around a hard break, and a hard break at the
+    end of a block is no break: such inline sequences cannot be expressed."""
+    kinds = []
+
+    def flatten(xs):
+        for x in xs:
+            if x[0] == "a":
+                flatten(x[2])
+            else:
+                kinds.append(x[0])
+    flatten(inls)
+    ws = ("tab", "br")
+    if kinds and (kinds[0] in ws or kinds[-1] in ws):
+        raise NotImplementedError("markdown does not keep white space at the start or end of a block")
+    for a, b in zip(kinds, kinds[1:]):
+        if (a == "br" and b in ws) or (b == "br" and a in ws):
+            raise NotImplementedError("markdown does not keep white space next to a hard line break")
+
+
 def _md_blocks(bs, br: str):
     """-> list of chunks (each a string of one or more lines); chunks are separated by one blank line."""
     out = []
     for b in bs:
         k = b[0]
         if k == "p":
+            _md_check_space(b[1])
             s = _md_inl(b[1], br)
             if not s.strip():
                 raise NotImplementedError("markdown cannot express an empty paragraph")
-            if s[0] in " \t\n" or re.search(r"\n[ \t\n]", s):
-                raise NotImplementedError("white space at the start of a markdown line is not preserved")
+            if s != s.strip(" ") or re.search(r"\n ", s):
+                raise NotImplementedError("white space at the start or end of a markdown line is not preserved")
             out.append(s)
         elif k == "h":
             if b[1] not in (1, 2, 3):
                 raise NotImplementedError("heading level %r" % (b[1],))
+            _md_check_space(b[2])
             s = _md_inl(b[2], br, heading=True)
+            if s != s.strip(" "):
+                raise NotImplementedError("white space at the start or end of a markdown heading is not preserved")
             out.append("#" * b[1] + (" " + s if s else ""))
         elif k == "ul":
             out.append(_md_list(b[1], br))
